@@ -125,6 +125,22 @@ def sweep_hist(backend, hists, tag):
     return total
 
 
+def attribute_name_histories():
+    """verbs spelled like attributes of the server object (methods that are not FTP commands, private helpers,
+    properties) are unsupported verbs like any other: 502, and the session continues"""
+    import aioftp
+    names = sorted({n for n in dir(aioftp.Server)} | {"connection", "user", "stream", "self", "cls", "lambda", "await"})
+    supported = {v.lower() for v in M.SUPPORTED} if hasattr(M, "SUPPORTED") else set(aioftp.Server([aioftp.User()]).commands_mapping)
+    out = []
+    for n in names:
+        if n.lower() in supported:
+            continue
+        out.append(["USER anonymous", n.upper(), "PWD"])
+        out.append(["USER anonymous", n + " x", "PWD"])
+        out.append([n, "USER anonymous", "PWD"])
+    return out
+
+
 def rest_scope_histories():
     """REST n, then any one command (refused transfers, transfers without data connection, anything), then a transfer
     with a data connection: the offset may only ever apply to the command right after REST"""
@@ -253,10 +269,12 @@ def run(tier, seed, t0):
         parts.append(sweep("memory", ["USER anonymous", "PASV", "@data"], REDUCED, 3))
         parts.append(sweep("pathio", ["USER anonymous", "PASV", "@data"], REDUCED, 2))
         parts.append(sweep("memory", ["USER anonymous", "EPSV", "@data", "REST 2"], ALPHABET, 2))
+    parts.append(sweep_hist("memory", attribute_name_histories(), "attribute-names"))
     parts += report.pmap(timeout_case, [(pre, line) for pre in TIMEOUT_PREFIXES for line in ALPHABET])
     part = report.merge_all(parts)
     bounds = {"path_timeout": "every command of the alphabet from %d prefixes on a server with path_timeout=0.05 whose "
                               "backend calls take 0.125 s" % len(TIMEOUT_PREFIXES),
+              "attribute_names": "every attribute name of aioftp.Server that is not an FTP command, sent as a verb (before / after login, with an argument)",
               "alphabet_size": len(ALPHABET), "reduced_alphabet": len(REDUCED), "tier_depths": "quick: memory 4, pathio 3, async 2; "
               "thorough: memory 6, pathio 4, async 3", "tree": "d/, d/f, g", "users": ["anonymous", "bob(password, home /d)"]}
     return report.finish(
